@@ -74,7 +74,8 @@ PlainOnlyIfNoHttpsTarget ==
   phase = "done" => \/ \A a \in DOMAIN out : \E k \in Svc : FromRecord(out[a], https[k])
                     \/ \A a \in DOMAIN out : Plain(out[a]) /\ ~\E k \in Svc : FromRecord(out[a], https[k]) /\ FALSE
                     \/ \A a \in DOMAIN out : Plain(out[a])
-Http80Upgraded == port = 80 => \A a \in DOMAIN out : (\E k \in Svc : FromRecord(out[a], https[k])) => out[a].port # 80
+\* the origin's default port 80 is upgraded to 443 for targets from records; a record's own port= parameter is kept as it is, 80 included
+Http80Upgraded == port = 80 => \A a \in DOMAIN out : out[a].port = 80 => (Plain(out[a]) \/ \E k \in Svc : https[k].port = 80 /\ FromRecord(out[a], https[k]))
 RecordOrder == \A a, b \in DOMAIN out : a < b =>
                  \/ Plain(out[a]) /\ Plain(out[b])
                  \/ \E ka, kb \in Svc : ka <= kb /\ FromRecord(out[a], https[ka]) /\ FromRecord(out[b], https[kb])
